@@ -1,2 +1,2 @@
-(* C10 driver section: not implemented yet *)
+(* C10 is served by the functions registered in drv_c09.ml (same model, coq/Model/VEnc.v). *)
 let init () = ()
